@@ -77,8 +77,8 @@ Theorem C06_import_power_safe : forall w l bs nh twice m,
   let w' := power_loss (crash (run_events (w, l) (firstn m (p_import w nh twice true bs)))) in
   Inv H inflate w' /\ (forall k c, stored inflate (power_loss w) k = Some c -> stored inflate w' k = Some c).
 Proof. intros w l bs nh twice m HI P Hp Ho. destruct (import_crash_safe H inflate H_inj w l bs nh twice true m HI Hp Ho) as (_ & _ & C). exact (C eq_refl P). Qed.
-(* ANY finite history of add / pack / direct-to-pack / import / clean / repack operations that keeps the fsync defaults (History.fsync_on;
-   delete_objects is not covered by this theorem), power lost after ANY number of primitives: the invariant holds in what survives *)
+(* ANY finite history of add / pack / direct-to-pack / import / delete / clean / repack operations that keeps the fsync defaults
+   (History.fsync_on), power lost after ANY number of primitives: the invariant holds in what survives *)
 Theorem C06_power_loss_anywhere_in_any_history : forall ops s,
   Inv H inflate (fst s) -> Inv H inflate (power_loss (fst s)) -> pending (snd s) = [] ->
   pre_hist H inflate s ops -> forallb fsync_on ops = true ->
